@@ -507,10 +507,10 @@ class _DtMini(Mini):
                 return res if isinstance(op, ast.Eq) else not res
         return super().compare(op, l, r, node)
 
-    def _call(self, mini, e):
+    def _call(self, mini, e, _arg=_DT):
         f = u(e.func)
         if f in ('np.dtype', 'numpy.dtype') and len(e.args) == 1:
-            return _DT.of(self.ev(e.args[0]))
+            return _DT.of(self.ev(e.args[0]) if _arg is _DT else _arg)
         if f in ('tuple', 'list', 'set', 'frozenset') and len(e.args) == 1:
             return tuple(self.ev(e.args[0]))
         if f == 'dict' and len(e.args) == 1 and not e.keywords:
@@ -518,6 +518,14 @@ class _DtMini(Mini):
             return dict(v) if not isinstance(v, dict) else dict(v)
         if f == 'zip':
             return tuple(zip(*[self.ev(a) for a in e.args]))
+        if f == 'map' and len(e.args) == 2 and not e.keywords:
+            fn = e.args[0]
+            items = self.ev(e.args[1])
+            if not isinstance(items, (tuple, list)):
+                raise Undecided(f'dtype gate: call {u(e)}')
+            return tuple(self._call(mini, ast.Call(func=fn, args=[ast.Constant(value=None)], keywords=[]), _arg=it) for it in items)
+        if f == 'enumerate' and len(e.args) == 1:
+            return tuple(enumerate(self.ev(e.args[0])))
         if isinstance(e.func, ast.Name) and e.func.id in self.module.functions and e.func.id not in self.env:
             # a helper of the same module (memoisation decorators are transparent for a pure function of the dtype)
             callee_fi = self.module.functions[e.func.id]
@@ -616,7 +624,7 @@ def check_dtype_gate(ctx):
     rep.require(widths, 'COORDS_T fused type not found in types.pxd')
     table = {}
     for code in ('u1', 'u2', 'u4', 'u8', 'i1', 'i2', 'i4', 'i8', 'f4', 'f8', 'b1'):
-        mini = _DtMini({p: _ARR(_DT(code))}, met)
+        mini = _DtMini({p: _ARR(_DT(code))}, fi.module)      # the module the gate is DEFINED in (it may have been moved)
         try:
             mini.run(body)
             res = ('falls off the end',)
@@ -646,52 +654,139 @@ def check_dtype_gate(ctx):
     rep.add('M8', site, 'every other dtype is rejected with ValueError', not bad_o, expected='raise ValueError', found=bad_o or {c: table[c] for c in table if c[0] not in 'ui'}, stmt='reject')
     rep.info['dtype_gate_table'] = {c: list(v) for c, v in table.items()}
 
-    # callers: every coordinate operand of a kernel call went through the gate
-    ncalls = 0
-    for fname in ('jaccard', 'jaccarddist', 'jaccarddist_array'):
-        f2 = m.func(f'gambit.metric.{fname}')
-        rep.functions.add(f2.qualname)
-        for call in calls_in(f2.node):
-            tgt = m.resolve_call(f2, call)
-            if tgt not in (f'{PYX}.jaccard', f'{PYX}.jaccarddist', f'{PYX}._jaccarddist_parallel'):
-                continue
-            ncalls += 1
-            rep.call_sites += 1
-            st = None
-            for s in stmts_in(f2.node.body):
-                if any(x is call for x in ast.walk(s)) and not isinstance(s, (ast.If, ast.For, ast.While, ast.With)):
-                    st = s
-            for k, a in enumerate(call.args[:2]):
-                ok = False
-                found = u(a)
-                if isinstance(a, ast.Name):
-                    d = reaching_def(f2.node, a.id, st)
-                    v = def_value(d) if d not in (None, PARAM, AMBIGUOUS) else None
-                    found = u(v) if v is not None else str(d)
-                    ok = isinstance(v, ast.Call) and m.resolve_call(f2, v) == 'gambit.metric._cast_sigs_array'
-                elif isinstance(a, ast.Call):
-                    ok = m.resolve_call(f2, a) == 'gambit.metric._cast_sigs_array'
-                rep.add('M8', f2.site(call), f'operand {k + 1} of the kernel call passes through the dtype gate', ok,
-                        expected='_cast_sigs_array(...)', found=found, stmt=f'{tgt.rsplit(".", 1)[1]} arg{k + 1}')
-    rep.floor('M8', 'kernel call sites in metric.py', ncalls, 3)
-    # the thin Python wrappers, by value flow: every returned value is the kernel value of (gate(p1), gate(p2)) - for the index
-    # also 1 - <such a distance> (the Cython jaccard is itself 1 - c_jaccarddist, rule M7 above) - on an unconditional path
+    # callers: every coordinate operand of a kernel call went through the gate - in every function of the modules involved
     GATE = 'gambit.metric._cast_sigs_array'
+    KERNELS = (f'{PYX}.jaccard', f'{PYX}.jaccarddist', f'{PYX}._jaccarddist_parallel')
+
+    def elementwise_gate(f2, e):
+        """gate applied to every element of a sequence, in order: map(gate, X) / [gate(x) for x in X] / (gate(x) for x in X)"""
+        if isinstance(e, ast.Call) and u(e.func) in ('list', 'tuple', 'iter') and len(e.args) == 1 and not e.keywords:
+            return elementwise_gate(f2, e.args[0])
+        if isinstance(e, ast.Call) and u(e.func) == 'map' and len(e.args) == 2 and not e.keywords and m.resolve(f2.module, e.args[0]) == GATE:
+            return e.args[1]
+        if isinstance(e, (ast.ListComp, ast.GeneratorExp)) and len(e.generators) == 1 and not e.generators[0].ifs and isinstance(e.generators[0].target, ast.Name) \
+                and isinstance(e.elt, ast.Call) and m.resolve_call(f2, e.elt) == GATE and len(e.elt.args) == 1 and u(e.elt.args[0]) == e.generators[0].target.id:
+            return e.generators[0].iter
+        return None
+
+    def positional(f2, call):
+        """The positional operands of a call with `*` spread resolved: K(*(a, b)), K(*helper(a, b)) with helper(*xs) = [gate(x) for x in xs]."""
+        out = []
+        for a in call.args:
+            if not isinstance(a, ast.Starred):
+                out.append(a)
+                continue
+            v = a.value
+            if isinstance(v, (ast.Tuple, ast.List)):
+                out.extend(v.elts)
+                continue
+            if isinstance(v, ast.Call) and not v.keywords and not any(isinstance(x, ast.Starred) for x in v.args):
+                hf = m.functions.get(m.resolve_call(f2, v) or '')
+                if hf is not None and hf.node.args.vararg is not None and not hf.node.args.args and not hf.node.args.kwonlyargs:
+                    body = [st for st in hf.node.body if not (isinstance(st, ast.Expr) and isinstance(st.value, ast.Constant))]
+                    if len(body) == 1 and isinstance(body[0], ast.Return) and body[0].value is not None:
+                        src = elementwise_gate(hf, body[0].value)
+                        if src is not None and u(src) == hf.node.args.vararg.arg:
+                            out.extend(ast.Call(func=ast.Name(id='__gate__', ctx=ast.Load()), args=[x], keywords=[]) for x in v.args)
+                            continue
+            return None
+        return out
 
     def operand(f2, e, at, depth=0):
-        """('gated', p) | ('raw', p) | ('other', text): where the value of e at statement `at` comes from."""
-        if isinstance(e, ast.Call) and m.resolve_call(f2, e) == GATE and len(e.args) == 1 and not e.keywords:
+        """('gated', root) | ('raw', root) | ('other', text): where the value of e at statement `at` comes from."""
+        if isinstance(e, ast.Call) and (u(e.func) == '__gate__' or m.resolve_call(f2, e) == GATE) and len(e.args) == 1 and not e.keywords:
             k, w = operand(f2, e.args[0], at, depth + 1)
             return ('gated', w) if k == 'raw' else ('other', u(e))
         if isinstance(e, ast.Name) and depth < 6:
             d = reaching_def(f2.node, e.id, at)
             if d is PARAM:
                 return ('raw', e.id)
+            if isinstance(d, (ast.For, ast.comprehension)):
+                # loop variable: element of enumerate(S)[1] / S ; S = map(gate, X) makes it a gated element of X
+                tgt, it = d.target, d.iter
+                if isinstance(it, ast.Call) and u(it.func) == 'enumerate' and it.args and isinstance(tgt, ast.Tuple) and len(tgt.elts) == 2 and u(tgt.elts[1]) == e.id:
+                    it, tgt = it.args[0], tgt.elts[1]
+                if isinstance(tgt, ast.Name) and tgt.id == e.id:
+                    src = elementwise_gate(f2, it)
+                    if src is not None:
+                        return ('gated', f'{u(src)}[*]')
+                    return ('raw', f'{u(it)}[*]')
+                return ('other', u(d.iter))
             if d not in (None, AMBIGUOUS):
                 v = def_value(d)
                 if v is not None:
                     return operand(f2, v, d, depth + 1)
+        if isinstance(e, ast.Attribute):
+            return ('raw', u(e))
         return ('other', u(e))
+
+    ncalls = 0
+    from ..inline import known_symbols
+    known = known_symbols()
+    scan = {f.qualname: f for f in m.all_functions() if f.module.name in ('gambit.metric', fi.module.name)}
+
+    def call_sites_of(q):
+        out = []
+        for f3 in m.all_functions():
+            for c3 in calls_in(f3.node):
+                if m.resolve_call(f3, c3) == q:
+                    out.append((f3, c3))
+        return out
+
+    def gated_at_callers(f2, pname, depth=0):
+        """A raw parameter of an extracted helper is fine when every caller hands it a gated value (one level of callers; dispatch
+        through functools.singledispatch registrations is followed to the generic function's call sites)."""
+        q = f2.qualname
+        sites = call_sites_of(q)
+        if not sites:
+            # registered implementation of a generic function: @generic.register -> call sites of the generic function
+            for d in f2.node.decorator_list:
+                base = d.func if isinstance(d, ast.Call) else d
+                if isinstance(base, ast.Attribute) and base.attr == 'register':
+                    g = m.resolve(f2.module, base.value)
+                    if g:
+                        sites = call_sites_of(g)
+        if not sites:
+            return None
+        idx = f2.params().index(pname)
+        res = []
+        for f3, c3 in sites:
+            pa = positional(f3, c3)
+            if pa is None or idx >= len(pa):
+                return None
+            st3 = next((s_ for s_ in stmts_in(f3.node.body) if any(x is c3 for x in ast.walk(s_)) and not isinstance(s_, (ast.If, ast.For, ast.While, ast.With))), None)
+            res.append(operand(f3, pa[idx], st3)[0] == 'gated')
+        return all(res)
+
+    for q, f2 in sorted(scan.items()):
+        if q not in known and m.moved.get(q, q) not in known and not call_sites_of(q) and not any(
+                isinstance((d.func if isinstance(d, ast.Call) else d), ast.Attribute) and (d.func if isinstance(d, ast.Call) else d).attr == 'register' for d in f2.node.decorator_list):
+            continue        # an extracted helper whose every call was expanded in place (N8): its body is analysed where it was called
+        for call in calls_in(f2.node):
+            tgt = m.resolve_call(f2, call)
+            if tgt not in KERNELS:
+                continue
+            ncalls += 1
+            rep.call_sites += 1
+            rep.functions.add(f2.qualname)
+            st = None
+            for s in stmts_in(f2.node.body):
+                if any(x is call for x in ast.walk(s)) and not isinstance(s, (ast.If, ast.For, ast.While, ast.With)):
+                    st = s
+            args = positional(f2, call)
+            rep.require(args is not None, f'{f2.qualname}: kernel call with a * spread the rule cannot resolve: {u(call)[:80]}')
+            for k, a in enumerate(args[:2] if tgt != KERNELS[2] else args[:2]):
+                kind, root = operand(f2, a, st)
+                if kind == 'raw' and root in f2.params() and q not in known:
+                    ok_c = gated_at_callers(f2, root)
+                    rep.require(ok_c is not None, f'{q}: kernel operand {root} is a parameter of an extracted helper whose callers the rule cannot follow')
+                    if ok_c:
+                        kind, root = 'gated', f'{root} (gated at every caller)'
+                rep.add('M8', f2.site(call), f'operand {k + 1} of the kernel call passes through the dtype gate', kind == 'gated',
+                        expected='_cast_sigs_array(...)', found=f'{kind}: {root}', stmt=f'{f2.name}: {tgt.rsplit(".", 1)[1]} arg{k + 1}')
+    rep.floor('M8', 'kernel call sites', ncalls, 3)
+    # the thin Python wrappers, by value flow: every returned value is the kernel value of (gate(p1), gate(p2)) - for the index
+    # also 1 - <such a distance> (the Cython jaccard is itself 1 - c_jaccarddist, rule M7 above) - on an unconditional path
 
     def distance_form(f2, e, at, ps, depth=0):
         """True when e is the kernel distance of the function's own two parameters, in order."""
@@ -703,10 +798,11 @@ def check_dtype_gate(ctx):
         if not isinstance(e, ast.Call):
             return False
         tgt = m.resolve_call(f2, e)
-        if tgt == f'{PYX}.jaccarddist' and len(e.args) == 2 and not e.keywords:
-            return [operand(f2, a, at) for a in e.args] == [('gated', ps[0]), ('gated', ps[1])]
-        if tgt == 'gambit.metric.jaccarddist' and f2.qualname != 'gambit.metric.jaccarddist' and len(e.args) == 2 and not e.keywords:
-            return [operand(f2, a, at) for a in e.args] == [('raw', ps[0]), ('raw', ps[1])]
+        pa = positional(f2, e)
+        if tgt == f'{PYX}.jaccarddist' and pa is not None and len(pa) == 2 and not e.keywords:
+            return [operand(f2, a, at) for a in pa] == [('gated', ps[0]), ('gated', ps[1])]
+        if tgt == 'gambit.metric.jaccarddist' and f2.qualname != 'gambit.metric.jaccarddist' and pa is not None and len(pa) == 2 and not e.keywords:
+            return [operand(f2, a, at) for a in pa] == [('raw', ps[0]), ('raw', ps[1])]
         return False
 
     def index_form(f2, e, at, ps, depth=0):
@@ -717,8 +813,9 @@ def check_dtype_gate(ctx):
             return False
         if isinstance(e, ast.BinOp) and isinstance(e.op, ast.Sub) and isinstance(e.left, ast.Constant) and e.left.value in (1, 1.0) and not isinstance(e.left.value, bool):
             return distance_form(f2, e.right, at, ps)
-        if isinstance(e, ast.Call) and m.resolve_call(f2, e) == f'{PYX}.jaccard' and len(e.args) == 2 and not e.keywords:
-            return [operand(f2, a, at) for a in e.args] == [('gated', ps[0]), ('gated', ps[1])]
+        if isinstance(e, ast.Call) and m.resolve_call(f2, e) == f'{PYX}.jaccard' and not e.keywords:
+            pa = positional(f2, e)
+            return pa is not None and len(pa) == 2 and [operand(f2, a, at) for a in pa] == [('gated', ps[0]), ('gated', ps[1])]
         return False
 
     for fname, form in (('jaccard', index_form), ('jaccarddist', distance_form)):
